@@ -7,7 +7,7 @@ import numpy as np
 import translate_hc
 from common import LEAN, REPO, R, Ro, Cxo, fl
 
-LEAN_MODULES = ["PyomaVerif.Props.C09", "PyomaVerif.Mutants.C09", "PyomaVerif.Props.C09C18", "PyomaVerif.Props.C09All", "PyomaVerif.Props.C09Blank", "PyomaVerif.Props.C09Stored", "PyomaVerif.Props.C09Run", "PyomaVerif.Props.C09RunLink"]
+LEAN_MODULES = ["PyomaVerif.Props.C09", "PyomaVerif.Mutants.C09", "PyomaVerif.Props.C09C18", "PyomaVerif.Props.C09All", "PyomaVerif.Props.C09Blank", "PyomaVerif.Props.C09Stored", "PyomaVerif.Props.C09Run", "PyomaVerif.Props.C09RunLink", "PyomaVerif.Props.C09C18Contracts"]
 THEOREMS = [
     # C09 for all six classes as ONE theorem over the list (program, required fields, which flags exist)
     "PV.C09All.C09_seq_all",
@@ -19,6 +19,13 @@ THEOREMS = [
     "PV.C09All.kept_iff_keptB",
     "PV.C09All.ex_kept",
     # composition C09 o C18: the kept poles satisfy the criteria for the library's own MPC/MPD definitions
+    # depth round: the MPC / MPD criteria read without the eigvals / svd parameters (Props/C09C18Contracts.lean)
+    "PV.C09C18.C09_closedDir_contract",
+    "PV.C09C18.C09_mpdVal_closed",
+    "PV.C09C18.C09_MpdOk_closed",
+    "PV.C09C18.C09_mpdVal_finite",
+    "PV.C09C18.mpcClosed?_cast",
+    "PV.C09C18.C09_MpcOk_eig",
     "PV.C09C18.kept_iff_of_check",
     "PV.C09C18.C09_kept_mpc",
     "PV.C09C18.C09_kept_mpd",
